@@ -216,7 +216,9 @@ def c15(res, tier, seed):
     # the scaled build: cap 6, many shapes
     execs = []
     for hi in range(12 if tier == "quick" else 150):
-        rules = scanmod.random_ruleset(r, r.randint(2, 7), r.randint(1, 2), 2, ["M", "NM", "Cnt", "Cnt", "Ref", "T"])
+        # every other rule set pads its rules with 63-130 strings that never match: the capped strings then sit at string indexes
+        # beyond the first 64-bit word of the per-string tables (a string disabled by the cap must be enabled again for the next scan)
+        rules = scanmod.random_ruleset(r, r.randint(2, 7), r.randint(1, 2), 2, ["M", "NM", "Cnt", "Cnt", "Ref", "T"], padprob=0.7 if hi % 2 else 0.0)
         scans = []
         for k in range(3):
             spec = [{"mk": [r.choice([0, 3, 6, 7, 9]), r.choice([0, 1, 6, 8])], "filler": 4, "gap": 1} for _ in range(r.choice([1, 2, 3]))]
